@@ -32,28 +32,57 @@ fn check_pieces<B: Backend>(cx: &mut Cx, method: &str, hay: &str, pat: &str, src
     }
 }
 
+type HipIt<'a, B> = Box<dyn Iterator<Item = HipStr<'static, B>> + 'a>;
+type StdIt<'a> = Box<dyn Iterator<Item = &'a str> + 'a>;
+type HipDe<'a, B> = Box<dyn DoubleEndedIterator<Item = HipStr<'static, B>> + 'a>;
+type StdDe<'a> = Box<dyn DoubleEndedIterator<Item = &'a str> + 'a>;
+
+/// forward iteration, and the Iterator methods an adaptor may override (nth, last, count, size_hint), against std's iterator.
+/// (One compiled copy per backend: the iterators are passed boxed; `nth` / `nth_back` / `size_hint` still dispatch to the
+/// concrete iterator's own implementation through the vtable.)
+fn iters_fwd<'a, B: Backend>(cx: &mut Cx, name: &str, hay: &str, pat: &str, src: &HipStr<'static, B>, hip: &dyn Fn() -> HipIt<'a, B>, std_: &dyn Fn() -> StdIt<'a>) {
+    let exp: Vec<&str> = std_().collect();
+    let got: Vec<HipStr<'static, B>> = hip().collect();
+    check_pieces(cx, name, hay, pat, src, &got, &exp);
+    for k in 0..3usize {
+        let (mut a, mut b) = (hip(), std_());
+        let (x, y) = (a.nth(k), b.nth(k));
+        let (mut got, mut exp): (Vec<_>, Vec<_>) = (x.into_iter().collect(), y.into_iter().collect());
+        got.extend(a); exp.extend(b);
+        check_pieces(cx, &format!("{}.nth({}) then the rest", name, k), hay, pat, src, &got, &exp);
+    }
+    { let (g, e): (Vec<_>, Vec<_>) = (hip().last().into_iter().collect(), std_().last().into_iter().collect()); check_pieces(cx, &format!("{}.last", name), hay, pat, src, &g, &e); }
+    { let n = std_().count(); let c = hip().count(); let (lo, hi) = hip().size_hint();
+      if c != n || lo > n || hi.map_or(false, |h| h < n) { fail(cx, &format!("{}.count/size_hint", name), hay, pat, format!("count {} size_hint ({}, {:?})", c, lo, hi), format!("count {} within the hint", n)); } }
+}
+/// both directions: rev, alternating ends, nth_back, rev().nth, rev().skip().step_by(), rfold
+fn iters_both<'a, B: Backend>(cx: &mut Cx, name: &str, hay: &str, pat: &str, src: &HipStr<'static, B>, hip: &dyn Fn() -> HipDe<'a, B>, std_: &dyn Fn() -> StdDe<'a>) {
+    iters_fwd(cx, name, hay, pat, src, &|| Box::new(hip()), &|| Box::new(std_()));
+    let exp: Vec<&str> = std_().rev().collect();
+    let got: Vec<HipStr<'static, B>> = hip().rev().collect();
+    check_pieces(cx, &format!("{}.rev", name), hay, pat, src, &got, &exp);
+    let (mut a, mut b) = (hip(), std_());
+    let (mut got, mut exp) = (vec![], vec![]);
+    let mut front = true;
+    loop { let (x, y) = if front { (a.next(), b.next()) } else { (a.next_back(), b.next_back()) }; front = !front; match (x, y) { (Some(x), Some(y)) => { got.push(x); exp.push(y); } (None, None) => break, (x, y) => { got.extend(x); exp.extend(y); break; } } }
+    check_pieces(cx, &format!("{}.mixed", name), hay, pat, src, &got, &exp);
+    for k in 0..3usize {
+        let (mut a, mut b) = (hip(), std_());
+        let (x, y) = (a.nth_back(k), b.nth_back(k));
+        let (mut got, mut exp): (Vec<_>, Vec<_>) = (x.into_iter().collect(), y.into_iter().collect());
+        got.extend(a.nth(k)); exp.extend(b.nth(k)); got.extend(a.nth_back(0)); exp.extend(b.nth_back(0)); got.extend(a); exp.extend(b);
+        check_pieces(cx, &format!("{}.nth_back({k}), nth({k}), nth_back(0), rest", name), hay, pat, src, &got, &exp);
+        let (got, exp): (Vec<_>, Vec<_>) = (hip().rev().nth(k).into_iter().collect(), std_().rev().nth(k).into_iter().collect());
+        check_pieces(cx, &format!("{}.rev().nth({})", name, k), hay, pat, src, &got, &exp);
+    }
+    { let (got, exp): (Vec<_>, Vec<_>) = (hip().rev().skip(1).step_by(2).collect(), std_().rev().skip(1).step_by(2).collect()); check_pieces(cx, &format!("{}.rev().skip(1).step_by(2)", name), hay, pat, src, &got, &exp); }
+    { let (got, exp): (Vec<_>, Vec<_>) = (hip().rfold(vec![], |mut v, x| { v.push(x); v }), std_().rfold(vec![], |mut v, x| { v.push(x); v })); check_pieces(cx, &format!("{}.rfold", name), hay, pat, src, &got, &exp); }
+}
 macro_rules! iters {
-    ($cx:expr, $name:expr, $hay:expr, $patdesc:expr, $src:expr, $hip:expr, $std:expr) => {{
-        // forward
-        let exp: Vec<_> = $std.collect();
-        let got: Vec<_> = $hip.collect();
-        check_pieces($cx, $name, $hay, $patdesc, $src, &got, &exp);
-    }};
+    ($cx:expr, $name:expr, $hay:expr, $patdesc:expr, $src:expr, $hip:expr, $std:expr) => {{ iters_fwd($cx, $name, $hay, $patdesc, $src, &|| Box::new($hip), &|| Box::new($std)); }};
 }
 macro_rules! iters_de {
-    ($cx:expr, $name:expr, $hay:expr, $patdesc:expr, $src:expr, $hip:expr, $std:expr) => {{
-        iters!($cx, $name, $hay, $patdesc, $src, $hip, $std);
-        // backward
-        let exp: Vec<_> = $std.rev().collect();
-        let got: Vec<_> = $hip.rev().collect();
-        check_pieces($cx, concat!($name, ".rev"), $hay, $patdesc, $src, &got, &exp);
-        // mixed: front, back, front, ...
-        let (mut a, mut b) = ($hip, $std);
-        let (mut got, mut exp) = (vec![], vec![]);
-        let mut front = true;
-        loop { let (x, y) = if front { (a.next(), b.next()) } else { (a.next_back(), b.next_back()) }; front = !front; match (x, y) { (Some(x), Some(y)) => { got.push(x); exp.push(y); } (None, None) => break, (x, y) => { got.extend(x); exp.extend(y); break; } } }
-        check_pieces($cx, concat!($name, ".mixed"), $hay, $patdesc, $src, &got, &exp);
-    }};
+    ($cx:expr, $name:expr, $hay:expr, $patdesc:expr, $src:expr, $hip:expr, $std:expr) => {{ iters_both($cx, $name, $hay, $patdesc, $src, &|| Box::new($hip), &|| Box::new($std)); }};
 }
 macro_rules! indexed {
     ($cx:expr, $name:expr, $hay:expr, $patdesc:expr, $src:expr, $hip:expr, $std:expr) => {{
